@@ -24,12 +24,14 @@ def add_layout_probes(prog):
     prog['ops'][idx:idx] = probes
     return prog
 
-def run_prog(binary, prog, timeout=180.0, env=None, prefix=None, stop_on=('stream', 'open', 'dead')):
+def run_prog(binary, prog, timeout=180.0, env=None, prefix=None, stop_on=('stream', 'open', 'dead'), probe_peeks=False):
     d = fresh_dir('p')
     try:
         for h, p in prog['instances'].items():
             p['dir'] = d
-        r = SeqRunner(binary, timeout=timeout, env=env, prefix=prefix, stop_on=stop_on).run(prog)
+        sr = SeqRunner(binary, timeout=timeout, env=env, prefix=prefix, stop_on=stop_on)
+        sr.probe_peeks = probe_peeks
+        r = sr.run(prog)
         return r
     finally:
         for h, p in prog['instances'].items():
@@ -48,11 +50,33 @@ def summarize(r, prog):
 
 def seq_task(task):
     rng = rng_for(task['seed'], task['prop'], task['idx'])
+    if task.get('pinned'):
+        with open(task['pinned']) as f:
+            prog = json.load(f)
+        prog['instances'] = {int(k): v for k, v in prog['instances'].items()}
+        params = dict(prog['instances'][1])
+        prog['features'] = sorted(set(prog.get('features') or []) | {'pinned:' + os.path.basename(task['pinned'])})
+        t0 = time.time()
+        r = run_prog(task['binary'], prog, timeout=task.get('timeout', 180.0), probe_peeks=task.get('probe_peeks', False))
+        out = summarize(r, prog)
+        out.update(params=params, fp=fingerprint(prog['ops']), wall=time.time() - t0, prog=prog if r.findings else None,
+                   sample={'pinned': os.path.basename(task['pinned']), 'params': params, 'nops': len(prog['ops'])})
+        return out
     params = pick_params(rng, task.get('param_spec'))
     prog = gen_program(rng, task['profile'], params)
+    if task.get('clock_regress') and rng.random() < task['clock_regress']:
+        # wall clock jumps around between process lifetimes (file naming clock, hook H-clock)
+        base = 1_700_000_000_000
+        prog['ops'].insert(0, ['raw', {'req': {'op': 'clock', 'ms': base + 50_000_000}}])
+        k = 0
+        for op in prog['ops']:
+            if op[0] == 'restart':
+                k += 1
+                op[1]['clock'] = base + rng.choice([-1, 1, -3, 2]) * k * 1_000_000 + rng.randint(0, 1000)
+        prog['features'] = sorted(set(prog.get('features', [])) | {'clock-regression'})
     add_layout_probes(prog)
     t0 = time.time()
-    r = run_prog(task['binary'], prog, timeout=task.get('timeout', 180.0))
+    r = run_prog(task['binary'], prog, timeout=task.get('timeout', 180.0), probe_peeks=task.get('probe_peeks', False))
     out = summarize(r, prog)
     out['params'] = params
     out['fp'] = fingerprint(prog['ops'])
@@ -68,7 +92,7 @@ def nontrivial(res):
 
 def run_family(prop, tier, seed, budget, profile, kinds, n_quick, n_thorough, level='exploration',
                param_spec=None, rule='', required=None, cls_filter=None, triggers_of=None, assumptions=None,
-               profiles=('debug',)):
+               profiles=('debug',), clock_regress=0.0, extra_nontrivial=None, probe_peeks=False, nontrivial_fn=None):
     rep = Report(prop, tier, seed, level)
     rep.rule = rule
     rep.required = required or {}
@@ -77,12 +101,18 @@ def run_family(prop, tier, seed, budget, profile, kinds, n_quick, n_thorough, le
     for prof in (profiles if tier == 'thorough' else profiles[:1]):
         binary = common.build('wsrv', prof)
         tasks = [{'binary': binary, 'seed': seed, 'prop': prop + ':' + prof, 'idx': i, 'profile': profile,
-                  'param_spec': param_spec} for i in range(n)]
+                  'param_spec': param_spec, 'clock_regress': clock_regress, 'probe_peeks': probe_peeks} for i in range(n)]
+        pdir = os.path.join(common.VERIF, 'pinned', prop)
+        if os.path.isdir(pdir):
+            for fn in sorted(os.listdir(pdir)):
+                tasks.insert(0, {'binary': binary, 'seed': seed, 'prop': prop, 'idx': 0, 'pinned': os.path.join(pdir, fn),
+                                 'probe_peeks': probe_peeks})
         for t, res in pmap(seq_task, tasks, budget_s=budget):
             if isinstance(res, Exception):
                 rep.add_inconclusive(f'harness error: {res!r}')
                 continue
-            rep.add_case(res['fp'], nontrivial(res), res['sample'])
+            nt = (nontrivial_fn or nontrivial)(res) and (extra_nontrivial(res) if extra_nontrivial else True)
+            rep.add_case(res['fp'], nt, res['sample'])
             rep.merge_cover({k: v for k, v in res['stats'].items() if isinstance(v, int)})
             rep.count('programs:' + prof)
             rep.count('programs_with_rotation', 1 if res['stats'].get('max_blocks_per_topic', 0) >= 2 else 0)
